@@ -697,7 +697,7 @@ class SimNinja:
             elif f is not None and f["kind"] == "kill_at_op":
                 lf = {"kind": "kill_at_op", "k": f.get("k", 0), "root": w.root}
             env, marker = self.env, None
-            if f is not None and f["kind"] == "inner_fail" and e.rule == "pngquant":
+            if f is not None and f["kind"] == "inner_fail" and (e.rule in ("pngquant", "write_bitmap") or e.rule.startswith("picosvg")):
                 # the tool the step runs fails, not the step itself: a failing `pngquant` first on PATH
                 marker = os.path.join(os.path.dirname(self.step_log), "inner-%d.marker" % res.events)
                 env = dict(env)
